@@ -56,14 +56,14 @@ func chase(v *pjs.Var) *pjs.Var {
 }
 
 type renameStats struct {
-	programs, scopes, renamedScopes, vars, wfViolations, skipped, unvisited int
+	programs, scopes, renamedScopes, vars, wfViolations, wfExpected, skipped, unvisited int
 	wfKinds                                                  map[string]int
 	maxDeclared                                              int
 }
 
 // renameCase parses src, records the forest, minifies the same AST, and returns the model case line and the
 // implementation's answer ("" when the program is skipped).
-func renameCase(src string, keepNames, alphabet bool, st *renameStats) (string, string) {
+func renameCase(src string, keepNames, alphabet bool, st *renameStats, measureWf bool) (string, string) {
 	ast, err := pjs.Parse(parse.NewInputString(src), pjs.Options{WhileToFor: true})
 	if err != nil {
 		st.skipped++
@@ -141,11 +141,7 @@ func renameCase(src string, keepNames, alphabet bool, st *renameStats) (string, 
 		if keepNames || s.Parent == nil {
 			return false
 		}
-		f := s
-		for f != nil && !f.IsGlobalOrFunc {
-			f = f.Parent
-		}
-		if f != nil && f.Parent != nil && f.HasWith {
+		if f := s.Func; f != nil && f.Parent != nil && f.HasWith { // Scope.Func: the enclosing function's scope (itself for a function body)
 			return false
 		}
 		return true
@@ -197,6 +193,10 @@ func renameCase(src string, keepNames, alphabet bool, st *renameStats) (string, 
 	st.scopes += len(ordered)
 	// wf_prog measured: closure, disjointness, unique declaration, unrenamed-on-top
 	wf := func(kind string) {
+		if !measureWf {
+			st.wfExpected++ // the with-family puts kept-name functions below renamed ones on purpose (K14/K15 shape)
+			return
+		}
 		st.wfViolations++
 		if st.wfKinds == nil {
 			st.wfKinds = map[string]int{}
@@ -355,8 +355,9 @@ func runRename(res *vh.Result, seed uint64, n int, known bool, outDir string) {
 	fsrc, _ := os.Create(filepath.Join(outDir, "cases.src"))
 	defer fsrc.Close()
 	line := 1 + 2*4200
+	measure := true
 	emit := func(src string, keep, alpha bool) {
-		a, b := renameCase(src, keep, alpha, st)
+		a, b := renameCase(src, keep, alpha, st, measure)
 		if a != "" {
 			line++
 			fmt.Fprintln(fin, a)
@@ -377,6 +378,10 @@ func runRename(res *vh.Result, seed uint64, n int, known bool, outDir string) {
 	for _, src := range bigScopePrograms(master.Fork(), nb) {
 		emit(src, false, master.Intn(4) == 0)
 	}
+	measure = false
+	for _, src := range withFamily(master.Fork(), 40) {
+		emit(src, false, master.Intn(4) == 0)
+	}
 	res.Extra["rename_programs"] = st.programs
 	res.Extra["rename_scopes"] = st.scopes
 	res.Extra["rename_renamed_scopes"] = st.renamedScopes
@@ -385,6 +390,7 @@ func runRename(res *vh.Result, seed uint64, n int, known bool, outDir string) {
 	res.Extra["rename_skipped"] = st.skipped
 	res.Extra["rename_scopes_left_unrenamed_by_the_minifier"] = st.unvisited
 	res.Extra["wf_prog_violations"] = st.wfViolations
+	res.Extra["wf_prog_not_applicable_with_family"] = st.wfExpected
 	res.Extra["wf_prog_violation_kinds"] = st.wfKinds
 }
 
@@ -408,4 +414,57 @@ func debugRename(src string) {
 	for i, s := range col.scopes {
 		fmt.Printf("after scope %d declared=%s undeclared=%s\n", i, s.Declared.String(), s.Undeclared.String())
 	}
+}
+
+// withFamily: functions that contain `with` keep every name in all their scopes, also in the scopes that follow a nested
+// function / arrow function / method (which are renamed on their own); the programs mix those in random order.
+func withFamily(r *vh.Rand, n int) []string {
+	var out []string
+	for k := 0; k < n; k++ {
+		var b bytes.Buffer
+		top := r.Intn(2) == 0
+		if !top {
+			b.WriteString("function outer(po){var ov=po;") // the with-function below a renamed one (K14/K15 territory for capture, fine for names)
+		}
+		fmt.Fprintf(&b, "function wf%d(obj,inc){var keep1=1,keep2=2;", k)
+		parts := []string{
+			"const arrow=(q)=>{let aq=q+keep1;return aq};inc(arrow(1));",
+			"var fe=function(fp){var fl=fp+1;return fl};inc(fe(2));",
+			"var ob={meth(mp){let ml=mp;return ml}};inc(ob.meth(3));",
+			"class Cl{cm(cp){const cl=cp;return cl}}inc(new Cl().cm(4));",
+			"for(let idx=0;idx<2;idx++){with(obj){inc(idx)}}",
+			"try{inc(keep1)}catch(err){inc(err)}",
+			"switch(keep2){case 2:{let blk=keep1;inc(blk)}}",
+			"{let b1=1;{const b2=b1;inc(b2)}}",
+			"for(const fo of [1]){inc(fo)}",
+			"with(obj){inc(keep1+keep2)}",
+			"function inner(ip){var il=ip*2;return il}inc(inner(5));",
+		}
+		// random order, a with statement guaranteed
+		order := make([]int, len(parts))
+		for i := range order {
+			order[i] = i
+		}
+		for i := len(order) - 1; i > 0; i-- {
+			j := r.Intn(i + 1)
+			order[i], order[j] = order[j], order[i]
+		}
+		cnt := 4 + r.Intn(len(parts)-3)
+		has := false
+		for _, i := range order[:cnt] {
+			b.WriteString(parts[i])
+			if strings.Contains(parts[i], "with(") {
+				has = true
+			}
+		}
+		if !has {
+			b.WriteString(parts[9])
+		}
+		b.WriteString("return keep1}")
+		if !top {
+			fmt.Fprintf(&b, "return wf%d({},function(x){return x+ov})}", k)
+		}
+		out = append(out, b.String())
+	}
+	return out
 }
